@@ -44,25 +44,25 @@ import (
 // ---------------------------------------------------------------- entry points
 type entry struct {
 	name  string
-	modes bool                  // run with AllowPermissiveParsing off and on
-	cheap bool                  // included in the exhaustive short-input sweep of the thorough tier
-	kinds []string              // fixture kinds whose mutations are fed to it ("" = all DER)
-	f     func(b []byte) error  // the parse (and what the parser's result is used for)
+	modes bool                 // run with AllowPermissiveParsing off and on
+	cheap bool                 // included in the exhaustive short-input sweep of the thorough tier
+	kinds []string             // fixture kinds whose mutations are fed to it ("" = all DER)
+	f     func(b []byte) error // the parse (and what the parser's result is used for)
 }
 
 type tStruct struct {
 	A int
-	B []byte `asn1:"optional"`
+	B []byte                `asn1:"optional"`
 	C asn1.ObjectIdentifier `asn1:"optional"`
-	D asn1.BitString `asn1:"optional,tag:1"`
-	E string `asn1:"optional,utf8"`
-	F time.Time `asn1:"optional"`
-	G []int `asn1:"optional,set"`
-	H asn1.RawValue `asn1:"optional,explicit,tag:2"`
-	I *big.Int `asn1:"optional,tag:3"`
-	J asn1.Enumerated `asn1:"optional,tag:4"`
-	K bool `asn1:"optional,tag:5"`
-	L []asn1.RawValue `asn1:"optional,tag:6"`
+	D asn1.BitString        `asn1:"optional,tag:1"`
+	E string                `asn1:"optional,utf8"`
+	F time.Time             `asn1:"optional"`
+	G []int                 `asn1:"optional,set"`
+	H asn1.RawValue         `asn1:"optional,explicit,tag:2"`
+	I *big.Int              `asn1:"optional,tag:3"`
+	J asn1.Enumerated       `asn1:"optional,tag:4"`
+	K bool                  `asn1:"optional,tag:5"`
+	L []asn1.RawValue       `asn1:"optional,tag:6"`
 }
 
 func sigCheck(pub interface{}) {
@@ -126,7 +126,7 @@ func cbWalk(b []byte) error {
 		case 12:
 			s.ReadASN1Integer(&bi)
 		case 13:
-			s.ReadASN1Integer(&by)
+			s.ReadASN1Bytes(&by, cbasn1.INTEGER)
 		case 14:
 			s.ReadASN1Boolean(&bl)
 		case 15:
@@ -146,7 +146,7 @@ func cbWalk(b []byte) error {
 		case 22:
 			s.ReadOptionalASN1OctetString(&by, &present, cbasn1.Tag(2).ContextSpecific().Constructed())
 		case 23:
-			s.ReadOptionalASN1Boolean(&bl, cbasn1.Tag(3).ContextSpecific().Constructed(), false)
+			s.ReadOptionalASN1Boolean(&bl, false)
 		case 24:
 			s.ReadUint16(&u16)
 		case 25:
@@ -423,9 +423,9 @@ func crlsetCase(c *vh.Ctx, b []byte) {
 		}
 		res = vh.Some(vh.Nat(n))
 	}
-	// the header is JSON (standard library); the model sees the body after the header and whether the header parsed
-	hdrOK, body := crlsetSplit(b)
-	c.Case("gcase", vh.Pair(vh.NI(len(b)), vh.NI(hdrOK), vh.Bytes(body), vh.NI(o.Code()), res), in, in.Hex)
+	// the header is JSON (standard library): the model is told whether encoding/json accepted it
+	hdrOK, _ := crlsetSplit(b)
+	c.Case("gcase", vh.Pair(vh.Bytes(b), vh.Bool(hdrOK == 0), vh.NI(o.Code()), res), in, in.Hex)
 }
 
 // crlsetSplit mirrors getHeader's slicing; 0 = header JSON accepted, 1 = rejected, 2 = truncated
@@ -444,14 +444,17 @@ func crlsetSplit(b []byte) (int, []byte) {
 	return 0, b[2+hl:]
 }
 
-func sstCase(c *vh.Ctx, b []byte, certOK []int) {
+func sstCase(c *vh.Ctx, b []byte, model bool) {
 	in := caseInput{Kind: "sst", Hex: hex.EncodeToString(b)}
 	o := mut.Run(len(b), func() error { _, e := microsoft.Parse(b); return e })
 	if o.Class != "ok" && o.Class != "err" {
 		c.Violation("sst-"+o.Class, "microsoft.Parse: "+o.Msg, "mcase", in)
 	}
-	_ = certOK
-	c.Case("mcase", vh.Pair(vh.Bytes(b), vh.NI(o.Code())), in, in.Hex)
+	if model {
+		c.Case("mcase", vh.Pair(vh.Bytes(sstGood(c)), vh.Bytes(b), vh.NI(o.Code())), in, in.Hex)
+	} else {
+		c.Eval(in.Hex)
+	}
 }
 
 // ---------------------------------------------------------------- generation
@@ -487,7 +490,9 @@ func gen(c *vh.Ctx) {
 	if c.Thorough {
 		for v := 0; v < 1<<24; v += 1 {
 			b := []byte{byte(v >> 16), byte(v >> 8), byte(v)}
-			feed(c, es, b, "exhaustive3", "oracle", func(e *entry) bool { return strings.HasPrefix(e.name, "asn1.Unmarshal(RawValue") || strings.HasPrefix(e.name, "asn1.Unmarshal(int") })
+			feed(c, es, b, "exhaustive3", "oracle", func(e *entry) bool {
+				return strings.HasPrefix(e.name, "asn1.Unmarshal(RawValue") || strings.HasPrefix(e.name, "asn1.Unmarshal(int")
+			})
 		}
 		c.Exhaustive("every byte string of length 3 into asn1.Unmarshal(RawValue/int) in both modes")
 	}
@@ -568,12 +573,13 @@ func gen(c *vh.Ctx) {
 			crlsetCase(c, f.Data)
 		}
 		if f.Kind == "SST" {
-			sstCase(c, f.Data, nil)
+			sstCase(c, f.Data, false)
 		}
 	}
 	for i := 0; i < ng; i++ {
 		crlsetCase(c, genCRLSet(c))
-		sstCase(c, genSST(c), nil)
+		sstCase(c, genSST(c, false), true)
+		sstCase(c, genSST(c, true), false)
 	}
 
 	// (c)-(e) fixtures, their mutations, random bytes
@@ -688,7 +694,7 @@ func replay(c *vh.Ctx, raw json.RawMessage) {
 	case "crlset":
 		crlsetCase(c, b)
 	case "sst":
-		sstCase(c, b, nil)
+		sstCase(c, b, false)
 	}
 }
 
